@@ -762,7 +762,7 @@ class PlSqlDialect(AnsiSqlDialect):
         elif ansi_type == "int":
             length = sql_ansi_type[1]
             if length > MAX_INTEGER:
-                result = ("number", _tools.length_of_int(length), 0)
+                result = ("number", _tools.length_of_int(length + 1), 0)
 
         return result
 
@@ -980,7 +980,7 @@ class TransactSqlDialect(AnsiSqlDialect):
             elif limit <= MAX_BIGINT:
                 result = ("bigint", limit)
             else:
-                result = ("decimal", _tools.length_of_int(limit), 0)
+                result = ("decimal", _tools.length_of_int(limit + 1), 0)
         else:
             result = sql_ansi_type
 
@@ -1303,7 +1303,7 @@ class Db2SqlDialect(AnsiSqlDialect):
             elif length <= MAX_BIGINT:
                 result = ("bigint", length)
             else:
-                result = ("decimal", _tools.length_of_int(length))
+                result = ("decimal", _tools.length_of_int(length + 1))
         return result
 
     def __str__(self):
